@@ -411,6 +411,17 @@ Qed.
 Lemma sp_okl n : okl (sp n) = true.
 Proof. apply okl2_okl, sp_okl2. Qed.
 
+(* escaping the double quotes adds backslashes only *)
+Lemma esc_dq_okl a : okl a = true -> okl (esc_dq a) = true.
+Proof.
+  unfold okl, esc_dq. induction a as [|c a IH]; [reflexivity|]. cbn [forallb flat_map].
+  rewrite andb_true_iff. intros [Hc Ha]. rewrite forallb_app, (IH Ha), andb_true_r.
+  destruct (ascii_eqb c c_dq); cbn [forallb]; [reflexivity|now rewrite Hc].
+Qed.
+
+Lemma wf_value_esc_okl a : wf_value a = true -> okl (esc_dq a) = true.
+Proof. intros H. apply esc_dq_okl, wf_value_okl, H. Qed.
+
 Lemma pr_rest_okl l args : wf_rest l args = true -> okl (pr_rest l args) = true.
 Proof.
   revert args. induction l as [|[sep q] l IH]; intros [|x args] H; try discriminate H; [reflexivity|].
@@ -418,15 +429,15 @@ Proof.
   unfold wf_sep in Hs. rewrite !andb_true_iff in Hs. destruct Hs as [[_ Hs] _].
   cbn [pr_rest]. rewrite !okl_app, (argsep_okl _ Hs), (IH _ Hr). cbn [andb].
   rewrite andb_true_r. destruct q; cbn [pr_arg].
-  - cbn [okl forallb]. fold okl. rewrite okl_app, (wf_value_okl _ Hv). reflexivity.
-  - apply wf_value_okl, Hv.
+  - cbn [okl forallb]. fold okl. rewrite okl_app, (wf_value_esc_okl _ Hv). reflexivity.
+  - apply wf_value_esc_okl, Hv.
 Qed.
 
 Lemma print_args_okl g args : wf_args g args = true -> okl (print_args g args) = true.
 Proof.
   destruct args as [|a0 rest]; cbn [wf_args print_args]; [intros _; apply sp_okl|].
   rewrite !andb_true_iff. intros [[Hv _] Hr].
-  rewrite !okl_app, !sp_okl, (wf_value_okl _ Hv), (pr_rest_okl _ _ Hr). reflexivity.
+  rewrite !okl_app, !sp_okl, (wf_value_esc_okl _ Hv), (pr_rest_okl _ _ Hr). reflexivity.
 Qed.
 
 Definition cmd_tail (c : cmd) : str :=
